@@ -151,6 +151,8 @@ CONTRACTS = {
     'stdnum.luhn:calc_check_digit': 'Py.Contracts.luhn_calc_check_digit_spec',
     'stdnum.verhoeff:validate': 'Py.Contracts.verhoeff_validate_spec',
     'stdnum.iso7064.mod_11_10:validate': 'Py.Contracts.mod_11_10_validate_spec',
+    'stdnum.iso7064.mod_11_2:validate': 'Py.Contracts.mod_11_2_validate_spec',
+    'stdnum.damm:validate': 'Py.Contracts.damm_validate_spec',
     'stdnum.iso7064.mod_37_2:validate': 'Py.Contracts.mod_37_2_validate_spec',
     'stdnum.iso7064.mod_37_36:validate': 'Py.Contracts.mod_37_36_validate_spec',
     'stdnum.iso7064.mod_97_10:validate': 'Py.Contracts.mod_97_10_validate_spec',
@@ -217,6 +219,42 @@ def contract_closure(F, key, contracts=None, no_callee=()):
     return unfold, specs, callees
 
 
+def _stuck_retry(man, keys, mv, indent='  '):
+    """`mvcgen` stops at `if (match opt with | some v => … | none => false) then …` (the translation of `x and …` on an
+    optional argument): split the `match`/`if` by hand and run `mvcgen` again, two levels deep.  Only emitted for the
+    modules whose translation contains that shape."""
+    hit = 0
+    for c in sorted({c.split(':')[0] for c in keys}):
+        try:
+            t = open(os.path.join(common.LEAN_DIR, 'Gen', man['modules'][c]['ns'] + '.lean')).read()
+        except OSError:
+            continue
+        hit += len(re.findall(r'if \(+match \w+ with \| some v__ =>', t))
+    if hit != 1:      # several such conditions (de.handelsregisternummer): the repeated splitting explodes
+        return ''
+    return ('%sall_goals (try (py_is_wp; split <;> mvcgen [%s] <;> try (py_is_wp; split <;> mvcgen [%s])))\n' % (indent, mv, mv))
+
+
+def _db_seal(imports):
+    """`attribute [local irreducible]` for the registry constants of the imported `Gen` modules: the elaborator must never
+    unfold `Gen.db_*.db` (a 40 KB string that is parsed) while unifying"""
+    dbs = set()
+    for i in imports:
+        if not i.startswith('Gen.'):
+            continue
+        try:
+            dbs |= set(re.findall(r'Gen\.db_\w+\.db\b', open(os.path.join(common.LEAN_DIR, 'Gen', i[4:] + '.lean')).read()))
+        except OSError:
+            pass
+    return ''.join('attribute [local irreducible] %s\n' % d for d in sorted(dbs))
+
+
+def _db_inline(man, F, keys):
+    """`_db_generalize` as one `;`-separated line (for use inside a parenthesised tactic block)"""
+    t = _db_generalize(man, F, keys, '')
+    return ''.join(ln.strip() + '; ' for ln in t.split('\n') if ln.strip())
+
+
 def _db_generalize(man, F, keys, indent='  '):
     """tactic text that unfolds the functions `keys` and abstracts the registry constants they mention (mvcgen cannot
     cope with the 40 KB string literal behind `Gen.db_*.db`)"""
@@ -230,8 +268,7 @@ def _db_generalize(man, F, keys, indent='  '):
     if not dbs:
         return ''
     fl = [F[c]['lean'] for c in keys]
-    return ''.join('%stry unfold %s\n' % (indent, f) for f in fl + fl) + ''.join(
-        '%stry generalize %s = db__%d at *\n' % (indent, d, i) for i, d in enumerate(sorted(dbs)))
+    return ''.join('%stry unfold %s\n' % (indent, f) for f in fl + fl) + '%spy_gen_db\n' % indent
 
 
 def _contract(man, fam, post, post_name, exc='e.isValidation = true', pc=False, exclude=()):
@@ -288,15 +325,15 @@ def _contract(man, fam, post, post_name, exc='e.isValidation = true', pc=False, 
         gen = ''
         if dbs:
             fl = [F[c]['lean'] for c in unfold]
-            gen = ''.join('  try unfold %s\n' % f for f in fl + fl) + ''.join(
-                '  try generalize %s = db__%d at *\n' % (d, i) for i, d in enumerate(sorted(dbs)))
+            gen = ''.join('  try unfold %s\n' % f for f in fl + fl) + '  py_gen_db\n'
         extra = (['-' + x for x in PC_ERASE] + PC_SPECS) if pc else []
+        mvl = ', '.join([F[c]['lean'] for c in unfold] + sorted(set(specs)) + ['Py.stateT_pure_apply', 'Py.earlyReturn_eq'] + extra)
         src = pre + ('set_option maxHeartbeats %d in\ntheorem %s %s%s :\n    Py.Holds (%s%s) (fun v => %s) (fun %s => %s) := by\n'
-                     '  refine Py.holds_of_triple _ _ _ ?_\n%s  mvcgen [%s]\n%s' % (
+                     '  refine Py.holds_of_triple _ _ _ ?_\n%s  mvcgen [%s]\n%s%s' % (
                          CONTRACT_HEARTBEATS, name, today, bs, v['lean'], args, post, 'e' if re.search(r'\be\b', exc) else '_', exc, gen,
-                         ', '.join([F[c]['lean'] for c in unfold] + sorted(set(specs)) + ['Py.stateT_pure_apply', 'Py.earlyReturn_eq'] + extra), script))
+                         mvl, _stuck_retry(man, unfold, mvl), script))
         out.append({'name': name, 'ns': ns, 'covers': mod, 'family': fam, 'src': src, 'imports': sorted(imports),
-                    'prelude': 'open Py Std.Do\nset_option mvcgen.warning false\npy_setup\n'})
+                    'prelude': 'open Py Std.Do\nset_option mvcgen.warning false\npy_setup\n' + _db_seal(imports)})
     return out
 
 
@@ -362,7 +399,7 @@ def fam_c02_fixed(man):
                 pfx, vt, first, opts, c['lean'], first, pfx, ns, vt, first, opts))
         out.append({'name': pfx + '.validate_fixed', 'ns': ns, 'covers': mod, 'family': 'C02f', 'src': src,
                     'imports': sorted(imports),
-                    'prelude': 'open Py Std.Do\nset_option mvcgen.warning false\nset_option linter.unusedVariables false\npy_setup\n'})
+                    'prelude': 'open Py Std.Do\nset_option mvcgen.warning false\nset_option linter.unusedVariables false\npy_setup\n' + _db_seal(imports)})
     return out
 
 
@@ -395,11 +432,11 @@ def fam_c02_idem(man):
         src = ('set_option maxHeartbeats %d in\n'
                'theorem %s.validate_compact %s%s :\n'
                '    Py.Holds (%s%s %s%s) (fun v => %s) (fun _ => True) := by\n'
-               '  refine Py.holds_of_triple _ _ _ ?_\n  mvcgen [%s]\n'
+               '  refine Py.holds_of_triple _ _ _ ?_\n  mvcgen [%s]\n%s'
                '  try any_goals (exact post⟨fun _ => ⌜True⌝, fun _ => ⌜True⌝⟩)\n'
                '  all_goals (try (mleave; done))\n'
                '  all_goals (clear_jps; py_c02 %s)\n\n' % (
-                   CONTRACT_HEARTBEATS, pfx, today, bs, v['lean'], vt, first, opts, post, mv, c['lean']) +
+                   CONTRACT_HEARTBEATS, pfx, today, bs, v['lean'], vt, first, opts, post, mv, _stuck_retry(man, unfold, mv), c['lean']) +
                'theorem %s.validate_fixed %s%s (v : Str)\n'
                '    (h : %s%s %s%s = .ok v) :\n'
                '    %s%s v%s = .ok v ∧ Py.strip v = v := by\n'
@@ -412,7 +449,113 @@ def fam_c02_idem(man):
                    pfx, vt, first, opts, post, ns, vt, first, opts))
         out.append({'name': pfx + '.validate_fixed', 'ns': ns, 'covers': mod, 'family': 'C02i', 'src': src,
                     'imports': sorted(imports),
-                    'prelude': 'open Py Std.Do\nset_option mvcgen.warning false\nset_option linter.unusedVariables false\npy_setup\n'})
+                    'prelude': 'open Py Std.Do\nset_option mvcgen.warning false\nset_option linter.unusedVariables false\npy_setup\n' + _db_seal(imports)})
+    return out
+
+
+def _py_default_to_lean(d):
+    """Lean text of a Python default value (only the literals that occur as defaults of `format`)"""
+    d = d.strip()
+    if d in ('True', 'False'):
+        return d.lower()
+    if d == 'None':
+        return 'none'
+    m = re.match(r"^'([ -~]*)'$", d)
+    if m and "'" not in m.group(1) and '\\' not in m.group(1):
+        return '([%s] : Str)' % ', '.join(str(ord(ch)) for ch in m.group(1))
+    return None
+
+
+def fam_c04_vformat(man):
+    """second half of C04: an accepted number survives formatting,
+        validate x opts = ok v  ->  exists f, format v = ok f  and  validate f opts = ok v     (format with its defaults).
+    At the return point of validate (gates in the context) `compact (format v) = ok v` is evaluated: the pieces format
+    cuts v into survive clean(), the separators are deleted, consecutive slices concatenate to v.  Then the generated
+    C03 theorem (validate depends only on compact) and C02i (compact v = ok v, validate v = ok v)."""
+    F = man['functions']
+    out = []
+    for mod, m in sorted(man['modules'].items()):
+        v, c, f = F.get(mod + ':validate'), F.get(mod + ':compact'), F.get(mod + ':format')
+        if mod in GENERIC_MODULES or not _is_candidate(F, mod) or not c or not c['ok'] or not f or not f['ok'] or mod in C03_EXCLUDED:
+            continue
+        if c['params'] != ['number'] or c['ptypes'] != ['str'] or c['today'] or c['rtype'] != 'str':
+            continue
+        if not f['params'] or f['params'][0] != 'number' or f['ptypes'][0] != 'str' or f['rtype'] != 'str' or f['today']:
+            continue
+        fargs = []
+        for p_ in f['params'][1:]:
+            d = _py_default_to_lean(f.get('defaults', {}).get(p_, '')) if p_ in f.get('defaults', {}) else None
+            fargs.append(d)
+        if any(a is None for a in fargs):
+            continue
+        unfold, specs, callees = contract_closure(F, mod + ':validate', CONTRACTS_PC, GENERIC_MODULES)
+        if not all(F[k]['ok'] for k in unfold) or callees:
+            continue
+        ns = m['ns']
+        today = '(today__ : Date) ' if v['today'] else ''
+        bs = ' '.join('(%s : %s)' % (mangle(p) + "'", lean_type(t)) for p, t in zip(v['params'], v['ptypes']))
+        first = mangle(v['params'][0]) + "'"
+        vt = ' today__' if v['today'] else ''
+        opts = ''.join(' ' + mangle(p) + "'" for p in v['params'][1:])
+        fcall = lambda x: '%s %s%s' % (f['lean'], x, ''.join(' ' + a for a in fargs))
+        imports = {'Gen.' + man['modules'][k.split(':')[0]]['ns'] for k in unfold} | {
+            'Gen.' + ns, 'Lemmas.Contracts', 'Props.Auto.C03_' + ns, 'Props.Auto.C02i_' + ns}
+        pfx = 'Props.Auto.C04v.%s' % ns
+        mv = ', '.join([F[k]['lean'] for k in unfold] + sorted(set(specs)) + ['Py.stateT_pure_apply', 'Py.earlyReturn_eq']
+                       + ['-' + x for x in PC_ERASE] + PC_SPECS)
+        post = '∃ f, %s = .ok f ∧ %s f = .ok v' % (fcall('v'), c['lean'])
+        try:
+            gsrc = open(os.path.join(common.LEAN_DIR, 'Gen', ns + '.lean')).read()
+        except OSError:
+            gsrc = ''
+        fm = re.search(r'^def format \(number : Str\) : R Str := do\n  return \(← %s number\)\n\n' % re.escape(c['lean']), gsrc, re.M)
+        if fm:
+            # format is compact: nothing to evaluate
+            src = ('theorem %s.validate_format %s%s (v : Str)\n'
+                   '    (h : %s%s %s%s = .ok v) :\n'
+                   '    ∃ f, %s = .ok f ∧ %s%s f%s = .ok v := by\n'
+                   '  have h1 := Props.Auto.C02i.%s.validate_compact%s %s%s\n'
+                   '  rw [h] at h1\n'
+                   '  have h2 := Props.Auto.C02i.%s.validate_fixed%s %s%s v h\n'
+                   '  refine ⟨v, ?_, h2.1⟩\n'
+                   '  unfold %s\n'
+                   '  rw [h1.2.1]\n'
+                   '  all_goals rfl\n' % (
+                       pfx, today, bs, v['lean'], vt, first, opts,
+                       fcall('v'), v['lean'], vt, opts,
+                       ns, vt, first, opts, ns, vt, first, opts, f['lean']))
+            out.append({'name': pfx + '.validate_format', 'ns': ns, 'covers': mod, 'family': 'C04v', 'src': src,
+                        'imports': sorted(imports),
+                        'prelude': 'open Py Std.Do\nset_option mvcgen.warning false\nset_option linter.unusedVariables false\npy_setup\n' + _db_seal(imports)})
+            continue
+        src = ('set_option maxHeartbeats %d in\n'
+               'theorem %s.format_compact %s%s :\n'
+               '    Py.Holds (%s%s %s%s) (fun v => %s) (fun _ => True) := by\n'
+               '  refine Py.holds_of_triple _ _ _ ?_\n  mvcgen [%s]\n%s'
+               '  try any_goals (exact post⟨fun _ => ⌜True⌝, fun _ => ⌜True⌝⟩)\n'
+               '  all_goals (try (mleave; done))\n'
+               '  all_goals (clear_jps; py_c04 %s %s)\n\n' % (
+                   CONTRACT_HEARTBEATS, pfx, today, bs, v['lean'], vt, first, opts, post, mv,
+                   _stuck_retry(man, unfold, mv), f['lean'], c['lean']) +
+               'theorem %s.validate_format %s%s (v : Str)\n'
+               '    (h : %s%s %s%s = .ok v) :\n'
+               '    ∃ f, %s = .ok f ∧ %s%s f%s = .ok v := by\n'
+               '  obtain ⟨f, hf, hcf⟩ : %s :=\n'
+               '    Py.holds_ok (x := %s%s %s%s) (v := v) (E := fun _ => True) (Q := fun v => %s) h (%s.format_compact%s %s%s)\n'
+               '  have h1 := Props.Auto.C02i.%s.validate_compact%s %s%s\n'
+               '  rw [h] at h1\n'
+               '  have h2 := Props.Auto.C02i.%s.validate_fixed%s %s%s v h\n'
+               '  have h4 := Props.Auto.C03.%s.validate_of_compact%s f v%s (hcf.trans h1.2.1.symm)\n'
+               '  exact ⟨f, hf, h4.trans h2.1⟩\n' % (
+                   pfx, today, bs, v['lean'], vt, first, opts,
+                   fcall('v'), v['lean'], vt, opts,
+                   post, v['lean'], vt, first, opts, post, pfx, vt, first, opts,
+                   ns, vt, first, opts,
+                   ns, vt, first, opts,
+                   ns, vt, opts))
+        out.append({'name': pfx + '.validate_format', 'ns': ns, 'covers': mod, 'family': 'C04v', 'src': src,
+                    'imports': sorted(imports),
+                    'prelude': 'open Py Std.Do\nset_option mvcgen.warning false\nset_option linter.unusedVariables false\npy_setup\n' + _db_seal(imports)})
     return out
 
 
@@ -446,6 +589,11 @@ def _validate_gate_facts(src):
     if rm:
         facts.append('(Re.match_ %s v).isSome = true' % rm.group(1))
     return facts
+
+
+# auxiliary shared-helper theorems (be.nn/be.bis birth dates): the chain works, but the partial-correctness specs of
+# `int()`/`monthrange` do not carry the values a later `datetime.date(...)` needs; off until they do
+C12G_AUX = False
 
 
 def fam_c12_getters(man):
@@ -494,6 +642,7 @@ def fam_c12_getters(man):
                           CONTRACT_HEARTBEATS, name, today, vbs, gbs, vcall, goal))
             # general variant: the getter contract is proved inside the post-condition of the pc run of validate
             slow = ('have hs : Py.Holds (%s) (fun r => r = v → %s) (fun _ => True) := by\n'
+                    '  clear h\n'
                     '  refine Py.holds_of_triple _ _ _ ?_\n%s'
                     '  mvcgen [%s]\n'
                     '  try any_goals (exact post⟨fun _ => ⌜True⌝, fun _ => ⌜True⌝⟩)\n'
@@ -501,38 +650,78 @@ def fam_c12_getters(man):
                     '  all_goals (clear_jps; intros; py_zeta; (try py_subst_inacc); (try py_fixpoint_rw); (try subst_vars); refine Py.holds_of_triple _ _ _ ?_; mvcgen [%s]\n'
                     '    <;> (try (first | exact post⟨fun _ => ⌜True⌝, fun e => ⌜e.isValidation = true⌝⟩ | (mleave; done))))\n'
                     '  all_goals (clear_jps; py_vc)\n'
-                    'exact Py.holds_ok (Q := fun r => r = v → %s) h hs rfl\n' % (
+                    'exact Py.holds_ok (x := %s) (v := v) (E := fun _ => True) (Q := fun r => r = v → %s) h hs rfl\n' % (
                         vcall, goal, _db_generalize(man, F, sorted(set(vunfold + gunfold), key=(vunfold + gunfold).index), '  '),
-                        mv_v, mv_g, goal))
-            if facts:
-                # cheap variant: summarise the accepted number by the top-level gates, then verify the getter once
-                cfun = facts[0].split(' ')[0] if facts[0].endswith(' v0 = .ok v') else None
-                fact0 = ' ∧ '.join(facts)
-                fact = fact0.replace(' v0 = ', ' v = ')          # after instantiation: input = result = v
-                factr = re.sub(r'\bv\b', 'r', fact0).replace(' v0 = ', ' v = ')   # post-condition of the pc run, result r
-                dest = ('have hq : %s := Py.holds_ok (Q := fun r => %s) h hs\nclear hs\n' % (fact, factr)) + (
-                    ''.join('have hf%d := hq%s\n' % (i, ''.join(['.2'] * i) + ('.1' if i < len(facts) - 1 else '')) for i in range(len(facts)))
-                    if len(facts) > 1 else 'have hf0 := hq\n')
-                cheap = ('have hs : Py.Holds (%s) (fun r => %s) (fun _ => True) := by\n'
-                         '  refine Py.holds_of_triple _ _ _ ?_\n%s'
-                         '  mvcgen [%s]\n'
+                        mv_v, mv_g, vcall, goal))
+            # graph variant: only validate itself is unfolded; every function it calls gets the reflexive specification
+            # `Py.graph_spec` (the call equation `f args = ok r` lands in the context).  At the return point the getter
+            # is either one of those calls (done) or is verified after rewriting its own calls with the equations.
+            direct = [c for c in F[mod + ':validate'].get('calls', []) if c in vunfold and c != mod + ':validate']
+            gthms, gdecl = [], ''
+            for c in direct:
+                ar = len(F[c]['params']) + (1 if F[c]['today'] else 0)
+                xs = ' '.join('a%d' % i for i in range(ar))
+                tn = 'Props.Auto.C12g.%s.%s_graph_%s' % (ns, gname, F[c]['lean'].replace('.', '_'))
+                gdecl += ('private theorem %s %s:\n    ⦃⌜True⌝⦄ %s %s ⦃post⟨fun r => ⌜%s %s = .ok r⌝, fun _ => ⌜True⌝⟩⦄ := Py.graph_spec _\n\n' % (
+                    tn, ('(%s) ' % xs) if ar else '', F[c]['lean'], xs, F[c]['lean'], xs))
+                gthms.append(tn)
+            mv_v1 = ', '.join([v['lean']] + sorted(set(vspecs)) + gthms + ['Py.stateT_pure_apply', 'Py.earlyReturn_eq']
+                              + ['-' + x for x in PC_ERASE] + PC_SPECS)
+            ind = lambda t, n: ''.join((' ' * n + ln + '\n') for ln in t.rstrip('\n').split('\n'))
+            # a helper both validate and the getter call (e.g. `_get_birth_date_parts`): an auxiliary theorem verifies the
+            # getter under the helper's own path conditions, given the call equation
+            aux_name, aux_decl, aux_alt = None, '', ''
+            shared = [c for c in direct if c in gunfold and c != key and not c.endswith(':compact')
+                      and F[c]['params'] == ['number'] and F[c]['ptypes'] == ['str']]
+            ckey = mod + ':compact'
+            if C12G_AUX and shared and (ckey not in gunfold or ckey in direct):
+                k = shared[0]
+                kunfold, kspecs, kcallees = contract_closure(F, k, CONTRACTS_PC, GENERIC_MODULES)
+                if all(F[x]['ok'] for x in kunfold) and not kcallees:
+                    aux_name = 'Props.Auto.C12g.%s.%s_aux' % (ns, gname)
+                    kcall = '%s%s v' % (F[k]['lean'], ' today__' if F[k]['today'] else '')
+                    hc = ('(hc : %s v = .ok v) ' % F[ckey]['lean']) if ckey in gunfold else ''
+                    mv_k = ', '.join([F[x]['lean'] for x in kunfold] + sorted(set(kspecs)) + ['Py.stateT_pure_apply', 'Py.earlyReturn_eq']
+                                     + ['-' + x for x in PC_ERASE] + PC_SPECS)
+                    aux_decl = ('set_option maxHeartbeats %d in\n'
+                                'private theorem %s %s(v : Str) %s (p) %s(hk : %s = .ok p) :\n    %s := by\n'
+                                '  have hs : Py.Holds (%s) (fun p\' => p\' = p → %s) (fun _ => True) := by\n'
+                                '    refine Py.holds_of_triple _ _ _ ?_\n%s'
+                                '    mvcgen [%s]\n'
+                                '    try any_goals (exact post⟨fun _ => ⌜True⌝, fun _ => ⌜True⌝⟩)\n'
+                                '    all_goals (try (mleave; done))\n'
+                                '    all_goals (clear_jps; intros; py_zeta; (try py_subst_inacc); (try subst_vars); refine Py.holds_of_triple _ _ _ ?_; unfold %s; (try py_rw_calls); %s'
+                                'mvcgen [%s]\n'
+                                '      <;> (try (first | exact post⟨fun _ => ⌜True⌝, fun e => ⌜e.isValidation = true⌝⟩ | (mleave; done))))\n'
+                                '    all_goals (clear_jps; py_vc)\n'
+                                '  exact Py.holds_ok (x := %s) (v := p) (E := fun _ => True) (Q := fun p\' => p\' = p → %s) hk hs rfl\n\n' % (
+                                    CONTRACT_HEARTBEATS, aux_name, today, gbs, hc, kcall, goal, kcall, goal,
+                                    _db_generalize(man, F, kunfold, '    '), mv_k, g['lean'], _db_inline(man, F, gunfold), mv_g,
+                                    kcall, goal))
+                    nargs = (1 if today else 0) + 1 + len(g['params'][1:]) + 1
+                    aux_alt = '    | exact %s %s %s(by assumption)\n' % (aux_name, ' '.join(['_'] * nargs), '(by assumption) ' if hc else '')
+            nondirect = [F[x]['lean'] for x in gunfold if x not in direct and x != key]
+            nd_unfold = ('(try simp only [%s]); ' % ', '.join(nondirect)) if nondirect else ''
+            if direct:
+                graph = (('have hs : Py.Holds (%s) (fun r => r = v → %s) (fun _ => True) := by\n'
+                         '  clear h\n'
+                         '  refine Py.holds_of_triple _ _ _ ?_\n'
+                         '  mvcgen [%s]\n' + _stuck_retry(man, [mod + ':validate'], mv_v1).replace('%', '%%') +
                          '  try any_goals (exact post⟨fun _ => ⌜True⌝, fun _ => ⌜True⌝⟩)\n'
                          '  all_goals (try (mleave; done))\n'
-                         '  all_goals (clear_jps; %s)\n'
-                         '%s%s'
-                         'refine Py.holds_of_triple _ _ _ ?_\n%s'
-                         'mvcgen [%s]\n%s' % (
-                             vcall, factr, _db_generalize(man, F, vunfold, '  '), mv_v,
-                             ('py_gates_c ' + cfun) if cfun else 'py_gates', dest,
-                             ('py_compact_eq hf0 %s\n' % cfun) if cfun else '', _db_generalize(man, F, gunfold, ''), mv_g,
-                             VC_SCRIPT.replace('\n  ', '\n')[2:]))
-                ind = lambda t, n: ''.join((' ' * n + ln + '\n') for ln in t.rstrip('\n').split('\n'))
-                src = header + '  first\n  | (\n' + ind(cheap, 4) + '    )\n  | (\n' + ind(slow, 4) + '    )\n'
+                         '  all_goals (clear_jps; intros; py_zeta; (try py_subst_inacc); (try py_fixpoint_rw); (try subst_vars); first\n'
+                         '    | (py_rw_calls; exact True.intro)\n' + aux_alt.replace('%', '%%') +
+                         '    | (refine Py.holds_of_triple _ _ _ ?_; unfold %s; %spy_gen_fns; (try py_rw_calls); '
+                         'mvcgen [%s]\n'
+                         '       <;> (try (first | exact post⟨fun _ => ⌜True⌝, fun e => ⌜e.isValidation = true⌝⟩ | (mleave; done)))))\n'
+                         '  all_goals (clear_jps; py_vc)\n'
+                         'exact Py.holds_ok (x := %s) (v := v) (E := fun _ => True) (Q := fun r => r = v → %s) h hs rfl\n') % (
+                             vcall, goal, mv_v1, g['lean'], nd_unfold, mv_g, vcall, goal))
+                src = gdecl + aux_decl + header + '  first\n  | (\n' + ind(graph, 4) + '    )\n  | (\n' + ind(slow, 4) + '    )\n'
             else:
-                ind = lambda t, n: ''.join((' ' * n + ln + '\n') for ln in t.rstrip('\n').split('\n'))
                 src = header + ind(slow, 2)
             out.append({'name': name, 'ns': ns + '__' + gname, 'covers': mod + ':' + gname, 'family': 'C12g', 'src': src, 'imports': sorted(imports),
-                        'prelude': 'open Py Std.Do\nset_option mvcgen.warning false\nset_option linter.unusedVariables false\npy_setup\n'})
+                        'prelude': 'open Py Std.Do\nset_option mvcgen.warning false\nset_option linter.unusedVariables false\npy_setup\n' + _db_seal(imports)})
     return out
 
 
@@ -571,44 +760,99 @@ def _strip_parens(t):
     return t
 
 
+def _guard_of_line(ln):
+    """`if (a != b) then` with one side a generator call: (generator, payload arguments, check expression, monadic)"""
+    cond = _strip_parens(ln.strip()[3:-5])
+    parts = _split_top(cond, ' != ')
+    if not parts:
+        return None
+    a, b = _strip_parens(parts[0]), _strip_parens(parts[1])
+    if b.startswith('← Gen.') and not a.startswith('← Gen.'):
+        a, b = b, a
+    gm = re.match(r'← (Gen\.[A-Za-z0-9_]+\.[A-Za-z0-9_]+)\s*(.*)$', a, re.S)
+    if not gm:
+        return None
+    gen, args = gm.group(1), gm.group(2).strip()
+    if b.startswith('← Py.getItem number '):
+        chk, mon = b[2:], True
+    elif b.startswith('Py.slice number '):
+        chk, mon = b, False
+    else:
+        return None
+    text = args + ' ' + chk
+    if '←' in text:
+        return None
+    idents = set(re.findall(r'(?<![A-Za-z0-9_.])[a-z_][A-Za-z0-9_]*(?![A-Za-z0-9_.])', re.sub(r'\([^()]*: [A-Za-z]+\)', '', text)))
+    if idents - {'number', 'none', 'some'}:
+        return None
+    return gen, args, chk, mon
+
+
+def _pure_cond(c):
+    """a branch condition that only talks about `number` (no monadic bind, no other local)"""
+    if '←' in c:
+        return False
+    idents = set(re.findall(r'(?<![A-Za-z0-9_.])[a-z_][A-Za-z0-9_]*(?![A-Za-z0-9_.])', re.sub(r'\([^()]*: [A-Za-z]+\)', '', c)))
+    return not (idents - {'number', 'none', 'some', 'decide', 'true', 'false'})
+
+
 def _checksum_guards(src):
-    """the top-level `if gen(payload) != check: raise InvalidChecksum` statements of `def validate` in a generated file:
-    [(generator, payload arguments (Lean text), check expression (Lean text), check is monadic)]"""
+    """the `if gen(payload) != check: raise InvalidChecksum` statements of `def validate` in a generated file:
+    [(generator, payload arguments (Lean text), check expression (Lean text), check is monadic, premise or None)];
+    first the top-level ones (premise None), then those nested one level inside an `if … / else if … / else` chain
+    whose conditions only talk about `number` (premise = the path condition of the branch)"""
     m = re.search(r'^def validate .*?(?=^def |^end )', src, re.S | re.M)
     if not m:
         return []
     lines = m.group(0).split('\n')
-    out = []
+    out, nested = [], []
     for i, ln in enumerate(lines):
-        if not (ln.startswith('  if ((') and ln.rstrip().endswith(') then')):
-            continue
-        if i + 1 >= len(lines) or 'Py.raise .invalidChecksum' not in lines[i + 1]:
-            continue
-        cond = _strip_parens(ln.strip()[3:-5])
-        parts = _split_top(cond, ' != ')
-        if not parts:
-            continue
-        a, b = _strip_parens(parts[0]), _strip_parens(parts[1])
-        if b.startswith('← Gen.') and not a.startswith('← Gen.'):
-            a, b = b, a
-        gm = re.match(r'← (Gen\.[A-Za-z0-9_]+\.[A-Za-z0-9_]+)\s*(.*)$', a, re.S)
-        if not gm:
-            continue
-        gen, args = gm.group(1), gm.group(2).strip()
-        if b.startswith('← Py.getItem number '):
-            chk, mon = b[2:], True
-        elif b.startswith('Py.slice number '):
-            chk, mon = b, False
-        else:
-            continue
-        text = args + ' ' + chk
-        if '←' in text:
-            continue
-        idents = set(re.findall(r'(?<![A-Za-z0-9_.])[a-z_][A-Za-z0-9_]*(?![A-Za-z0-9_.])', re.sub(r'\([^()]*: [A-Za-z]+\)', '', text)))
-        if idents - {'number', 'none', 'some'}:
-            continue
-        out.append((gen, args, chk, mon))
-    return out
+        if ln.startswith('  if ((') and ln.rstrip().endswith(') then'):
+            if i + 1 >= len(lines) or 'Py.raise .invalidChecksum' not in lines[i + 1]:
+                continue
+            g = _guard_of_line(ln)
+            if g:
+                out.append(g + (None,))
+        elif ln.startswith('    if ((') and ln.rstrip().endswith(') then'):
+            if i + 1 >= len(lines) or 'Py.raise .invalidChecksum' not in lines[i + 1]:
+                continue
+            g = _guard_of_line(ln)
+            if not g:
+                continue
+            # the chain of branch heads (indent 2) above this line
+            j = i - 1
+            while j >= 0 and not re.match(r'  (if |else if |else$)', lines[j]):
+                j -= 1
+            if j < 0:
+                continue
+            heads = [lines[j]]
+            k = j
+            while not heads[0].startswith('  if '):
+                k -= 1
+                while k >= 0 and not re.match(r'  (if |else if |else$)', lines[k]):
+                    if re.match(r'  \S', lines[k]):
+                        k = -1
+                        break
+                    k -= 1
+                if k < 0:
+                    break
+                heads.insert(0, lines[k])
+            if not heads[0].startswith('  if '):
+                continue
+            conds = []
+            ok = True
+            for h in heads:
+                hm = re.match(r'  (?:else )?if (.*) then$', h)
+                if hm:
+                    conds.append(hm.group(1))
+                    ok = ok and _pure_cond(hm.group(1))
+                else:
+                    conds.append(None)
+            if not ok:
+                continue
+            prem = ['¬((%s) = true)' % c for c in conds[:-1]] + (['(%s) = true' % conds[-1]] if conds[-1] else [])
+            nested.append(g + (' ∧ '.join(prem),))
+    return out + nested
 
 
 def fam_c05_generators(man):
@@ -629,42 +873,55 @@ def fam_c05_generators(man):
         except OSError:
             continue
         guards = _checksum_guards(src)
-        for idx, (gen, gargs, chk, mon) in enumerate(guards):
+        for idx, (gen, gargs, chk, mon, prem) in enumerate(guards):
             gkey = lean2key.get(gen)
             if not gkey or not F[gkey]['ok']:
                 continue
             g = F[gkey]
             unfold, specs, callees = contract_closure(F, mod + ':validate', dict(CONTRACTS_PC, **{gkey: None}), GENERIC_MODULES)
-            if not all(F[k]['ok'] for k in unfold) or callees:
+            if not all(F[k]['ok'] for k in unfold) or not all(F[k]['ok'] for k in callees):
                 continue
             specs = [x for x in specs if x]
+            # validate functions of other modules: only their call equation is recorded (partial correctness)
+            cdecl = ''
+            for ci, ck in enumerate(sorted(set(callees))):
+                ar = len(F[ck]['params']) + (1 if F[ck]['today'] else 0)
+                xs = ' '.join('a%d' % i for i in range(ar))
+                cn = 'Props.Auto.C05g.%s.callee_%d_%d' % (ns, idx, ci)
+                cdecl += ('private theorem %s %s:\n    ⦃⌜True⌝⦄ %s %s ⦃post⟨fun r => ⌜%s %s = .ok r⌝, fun _ => ⌜True⌝⟩⦄ := Py.graph_spec _\n\n' % (
+                    cn, ('(%s) ' % xs) if ar else '', F[ck]['lean'], xs, F[ck]['lean'], xs))
+                specs.append(cn)
             today = '(today__ : Date) ' if (v['today'] or g['today']) else ''
             bs = ' '.join('(%s : %s)' % (mangle(p) + "'", lean_type(t)) for p, t in zip(v['params'], v['ptypes']))
             vcall = '%s%s%s' % (v['lean'], ' today__' if v['today'] else '', ''.join(' ' + mangle(p) + "'" for p in v['params']))
             sub = lambda t: re.sub(r'(?<![A-Za-z0-9_.])number(?![A-Za-z0-9_.])', 'v', t)
             gcall = '%s%s %s' % (gen, ' today__' if g['today'] else '', sub(gargs))
             stmt = ('∃ w, %s = .ok w ∧ %s = .ok w' % (gcall, sub(chk))) if mon else ('%s = .ok (%s)' % (gcall, sub(chk)))
+            if prem:
+                stmt = '%s → %s' % (sub(prem), stmt)
             gbs = ('(today__ : Date) ' if g['today'] else '') + ' '.join('(a%d : %s)' % (i, lean_type(t)) for i, t in enumerate(g['ptypes']))
             gapp = gen + (' today__' if g['today'] else '') + ''.join(' a%d' % i for i in range(len(g['ptypes'])))
             pfx = 'Props.Auto.C05g.%s' % ns
             gname = '%s.graph_%d' % (pfx, idx)
             mv = ', '.join([F[k]['lean'] for k in unfold] + sorted(set(specs)) + [gname, 'Py.stateT_pure_apply', 'Py.earlyReturn_eq']
                            + ['-' + x for x in PC_ERASE] + [x for x in PC_SPECS if x != 'Py.getItem_pc'] + ['Py.getItem_graph'])
-            imports = {'Gen.' + man['modules'][k.split(':')[0]]['ns'] for k in unfold} | {'Gen.' + ns, 'Gen.' + man['modules'][gkey.split(':')[0]]['ns'], 'Lemmas.Contracts'}
+            imports = {'Gen.' + man['modules'][k.split(':')[0]]['ns'] for k in unfold + list(callees)} | {'Gen.' + ns, 'Gen.' + man['modules'][gkey.split(':')[0]]['ns'], 'Lemmas.Contracts'}
             name = '%s.generator_agrees_%d' % (pfx, idx)
-            src_t = ('theorem %s %s :\n    ⦃⌜True⌝⦄ %s ⦃post⟨fun r => ⌜%s = .ok r⌝, fun _ => ⌜True⌝⟩⦄ :=\n  Py.pc_triple (fun _ h => h)\n\n' % (
+            src_t = (cdecl + 'theorem %s %s :\n    ⦃⌜True⌝⦄ %s ⦃post⟨fun r => ⌜%s = .ok r⌝, fun _ => ⌜True⌝⟩⦄ :=\n  Py.pc_triple (fun _ h => h)\n\n' % (
                          gname, gbs, gapp, gapp) +
                      'set_option maxHeartbeats %d in\n'
                      'theorem %s %s%s (v : Str)\n    (h : %s = .ok v) :\n    %s := by\n'
                      '  have hs : Py.Holds (%s) (fun v => %s) (fun _ => True) := by\n'
-                     '    refine Py.holds_of_triple _ _ _ ?_\n    mvcgen [%s]\n'
+                     '    clear h\n'
+                     '    refine Py.holds_of_triple _ _ _ ?_\n    mvcgen [%s]\n%s'
                      '    try any_goals (exact post⟨fun _ => ⌜True⌝, fun _ => ⌜True⌝⟩)\n'
                      '    all_goals (try (mleave; done))\n'
                      '    all_goals (clear_jps; py_c05)\n'
-                     '  rw [h] at hs\n  exact hs\n' % (CONTRACT_HEARTBEATS, name, today, bs, vcall, stmt, vcall, stmt, mv))
+                     '  rw [h] at hs\n  exact hs\n' % (CONTRACT_HEARTBEATS, name, today, bs, vcall, stmt, vcall, stmt, mv,
+                                                       _stuck_retry(man, unfold, mv, '    ')))
             out.append({'name': name, 'ns': '%s__%d' % (ns, idx), 'covers': '%s:%s:%d' % (mod, gen.split('.')[-1], idx), 'family': 'C05g',
                         'src': src_t, 'imports': sorted(imports),
-                        'prelude': 'open Py Std.Do\nset_option mvcgen.warning false\nset_option linter.unusedVariables false\npy_setup\n'})
+                        'prelude': 'open Py Std.Do\nset_option mvcgen.warning false\nset_option linter.unusedVariables false\npy_setup\n' + _db_seal(imports)})
     return out
 
 
@@ -673,8 +930,8 @@ def fam_c01_nonempty(man):
     return _contract(man, 'C01n', 'v ≠ []', 'validate_nonempty')
 
 
-FAMILIES = {'C15a': fam_c15_ascii, 'C02f': fam_c02_fixed, 'C02i': fam_c02_idem, 'C12g': fam_c12_getters, 'C05g': fam_c05_generators, 'C03': fam_c03, 'C04': fam_c04_format, 'C01v': fam_c01_isvalid, 'C01c': fam_c01_contract, 'C01n': fam_c01_nonempty}
-FAMILY_PROPERTY = {'C15a': 'C15', 'C02f': 'C02', 'C02i': 'C02', 'C12g': 'C12', 'C05g': 'C05', 'C03': 'C03', 'C04': 'C04', 'C01v': 'C01', 'C01c': 'C01', 'C01n': 'C01'}
+FAMILIES = {'C15a': fam_c15_ascii, 'C02f': fam_c02_fixed, 'C02i': fam_c02_idem, 'C12g': fam_c12_getters, 'C05g': fam_c05_generators, 'C03': fam_c03, 'C04': fam_c04_format, 'C04v': fam_c04_vformat, 'C01v': fam_c01_isvalid, 'C01c': fam_c01_contract, 'C01n': fam_c01_nonempty}
+FAMILY_PROPERTY = {'C15a': 'C15', 'C02f': 'C02', 'C02i': 'C02', 'C12g': 'C12', 'C05g': 'C05', 'C03': 'C03', 'C04': 'C04', 'C04v': 'C04', 'C01v': 'C01', 'C01c': 'C01', 'C01n': 'C01'}
 
 
 def emit(all_candidates=False, only_family=None):
